@@ -274,7 +274,8 @@ func isPrimary(n *c01N) bool {
 }
 
 func (r c01R) operand(n *c01N) string {
-	if isPrimary(n) {
+	if isPrimary(n) || (r.abs && (n.K == "int" || n.K == "float")) {
+		// (in keys a literal is INT/FLOAT whatever its sign)
 		return r.expr(n)
 	}
 	return "(" + r.expr(n) + ")"
@@ -656,7 +657,8 @@ func c01OrderSensitive(p c01Prog) bool {
 		if n.K == "for" && len(n.Ss) == 1 {
 			found = true
 		}
-		if n.K == "call" && n.S == "keys" {
+		// keys(o), o.keys(), input.b.keys(), o |> keys
+		if (n.K == "call" || n.K == "pipe") && (n.S == "keys" || strings.HasSuffix(n.S, ".keys")) {
 			found = true
 		}
 	})
@@ -722,6 +724,13 @@ func c01Shrinks(c c01Case) []c01Case {
 			j := j
 			if c.Prog.Fns[i].Params[j].Def != nil {
 				add(func(d *c01Case) bool { d.Prog.Fns[i].Params[j].Def = nil; return true })
+			}
+			// a failure that does not depend on the declared type / required mark is keyed without them
+			if c.Prog.Fns[i].Params[j].Type != "any" {
+				add(func(d *c01Case) bool { d.Prog.Fns[i].Params[j].Type = "any"; return true })
+			}
+			if c.Prog.Fns[i].Params[j].Req {
+				add(func(d *c01Case) bool { d.Prog.Fns[i].Params[j].Req = false; return true })
 			}
 			add(func(d *c01Case) bool {
 				ps := d.Prog.Fns[i].Params
@@ -840,6 +849,16 @@ func c01Shrinks(c c01Case) []c01Case {
 					})
 				}
 			}
+			// $ r = e   →   > e   (a failure that shows while e is evaluated is keyed
+			// with the return form, whatever statement held e)
+			if st.K == "decl" && len(st.C) == 1 {
+				add(func(d *c01Case) bool {
+					b := c01BlockAt(&d.Prog, bi)
+					(*b)[si] = sRet((*b)[si].C[0])
+					*b = (*b)[:si+1]
+					return true
+				})
+			}
 			// x = e ; rest   →   $ fresh = e ; rest[x := fresh]
 			if st.K == "set" {
 				add(func(d *c01Case) bool {
@@ -895,7 +914,17 @@ func c01Shrinks(c c01Case) []c01Case {
 				}
 			})
 			if !closed {
-				continue // only closed initialisers: every inlining removes one reference to a declared variable
+				// only closed initialisers (every inlining removes one reference to a
+				// declared variable) — or a plain alias `$ n3 = n1` of a name that is
+				// not itself an alias: the use of n3 becomes a use of n1 (strictly
+				// fewer references to alias variables), so that the same defect met
+				// through an extra alias collapses to one key
+				if init.K != "var" || init.S == e.S {
+					continue
+				}
+				if target, ok2 := inits[init.S]; ok2 && target.K == "var" {
+					continue
+				}
 			}
 			ei, init := ei, init.clone()
 			add(func(d *c01Case) bool {
@@ -921,6 +950,10 @@ func c01Shrinks(c c01Case) []c01Case {
 					continue
 				}
 				repl = append(repl, m)
+			}
+			if e.K == "pipe" {
+				// x |> f(a)  →  f(x, a): a failure that does not depend on the call form is keyed with the plain call
+				repl = append(repl, nCall(e.S, e.C...))
 			}
 		case "arr":
 			for k := range e.C {
@@ -969,7 +1002,11 @@ func c01Shrinks(c c01Case) []c01Case {
 			repl = append(repl, c.Body)
 		}
 		switch e.K {
-		case "int", "float", "str", "bool", "null":
+		case "int":
+		case "float", "str", "bool", "null":
+			// a failure that does not depend on the kind of a literal is keyed with
+			// INT (two values, so that literals that must differ can stay different)
+			repl = append(repl, nInt(0), nInt(1))
 		default:
 			repl = append(repl, nInt(0))
 		}
